@@ -7,8 +7,8 @@
 set -u
 V=$(cd "$(dirname "$0")/.." && pwd)
 S=$1; shift
-D=$V/seeded/$S
-PROPS=${*:-$(python3 -c "import json;print(json.load(open('$D/meta.json'))['property'])")}
+D=${SEED_DIR:-$V/seeded/$S}
+PROPS=${*:-$(python3 -c "import json;print(json.load(open('$D/meta.json'))['property'])" 2>/dev/null || echo ${S%%-*})}
 WT=/tmp/seedrun-$S
 git -C /repo worktree remove --force "$WT" >/dev/null 2>&1
 git -C /repo worktree add -q "$WT" HEAD || exit 2
@@ -21,6 +21,7 @@ for P in $PROPS; do
   if [ $RC -eq 1 ] && [ -n "$LINE" ]; then
     RP=$(echo "$LINE" | sed 's/.*replay=\([^ ]*\).*/\1/')
     mkdir -p "$D/detected"; cp "$RP" "$D/detected/$P.json" 2>/dev/null
+    python3 -c "import json,sys;d=json.load(open('$RP'));print('   ',d.get('kind'),(d.get('finding') or {}).get('signature'),((d.get('finding') or {}).get('what') or '')[:160])" 2>/dev/null
     echo "CAUGHT $S by $P: $LINE"
   else
     echo "MISSED $S by $P (exit $RC): $(echo "$OUT" | tail -2 | tr '\n' ' ')"
